@@ -56,12 +56,23 @@ def main():
         only = args[i + 1]
         del args[i:i + 2]
     props = set(args)
-    assert run('git -C /repo status --porcelain').stdout.strip() == '', '/repo has uncommitted changes'
+    # mutants are applied to a scratch worktree of /repo's HEAD (outside /repo and /verif), removed at the end
+    scratch = f'/tmp/selftest-{os.getpid()}'
+    run(f'git -C /repo worktree add --detach {scratch} HEAD')
+    os.environ['VERIF_REPO'] = scratch
+    try:
+        return _main(args, tier, only, props, scratch)
+    finally:
+        run(f'git -C /repo worktree remove --force {scratch}')
+        run('git -C /repo worktree prune')
+
+
+def _main(args, tier, only, props, scratch):
     results = []
     for name, prop, path, old, new in MUTANTS:
         if (props and prop not in props) or (only and only != name):
             continue
-        full = os.path.join('/repo', path)
+        full = os.path.join(scratch, path)
         src = open(full).read()
         if src.count(old) != 1:
             print(f'{name}: pattern occurs {src.count(old)} times, skipped')
@@ -76,8 +87,7 @@ def main():
             print(f'{name}: {verdict} in {time.time() - t0:.0f}s', (viol[:1] + p.stdout.splitlines()[-1:]))
             results.append((name, prop, verdict))
         finally:
-            run('git -C /repo checkout -- .')
-    run('rm -f replays/*.json', cwd=ROOT)
+            run(f'git -C {scratch} checkout -- .')
     json.dump(results, open(os.path.join(ROOT, 'tools', 'selftest_last.json'), 'w'), indent=1)
     return 0 if all(r[2] == 'killed' for r in results) else 1
 
